@@ -372,8 +372,10 @@ def _gen_spec(rng: Rng, want_mc, min_ports, profile, mc_triggers=False) -> dict:
         free = [p for p in ports if not p['injected'] and not (mc and p['name'] == mc.get('port'))]
         for p, itf in zip(rng.shuffle(free)[:2], hom_pair):
             p['itf'] = itf['ns'] + [itf['name']]
-    if profile == 'many_ports':
-        # near-duplicate names: equal under casefold(), so that any sort key coarser than the name itself ties
+    near_dup = profile == 'many_ports' or rng.chance(25)
+    if near_dup:
+        # near-duplicate names: equal under casefold(), so that any sort key or comparison coarser than the name itself
+        # ties (the accessor names stay distinct: only letters after the first differ)
         for p in ports:
             if rng.chance(35):
                 other = rng.choice(ports)
@@ -381,7 +383,7 @@ def _gen_spec(rng: Rng, want_mc, min_ports, profile, mc_triggers=False) -> dict:
                     v = pnames.variant('port', other['name'])
                     if v:
                         p['name'] = v
-        if rng.chance(20):
+        if profile == 'many_ports' and rng.chance(20):
             cands = [p for p in ports if not (mc and p['name'] == mc.get('port'))]
             if len(cands) >= 2:
                 a, b = rng.sample(cands, 2)
